@@ -60,7 +60,7 @@ ASSUMPTIONS = [
     "a rejection may drop valid messages parsed earlier in the same read (prefix rule)",
 ]
 
-_STATUS = re.compile(rb"^HTTP/1\.[01] (\d{3})", re.M)
+_STATUS = re.compile(rb"HTTP/1\.[01] (\d{3}) ")
 
 # ---------------------------------------------------------------------------
 # streams
